@@ -305,5 +305,6 @@ def _get_cache_directory_path(cache_path=None):
         cache_path = _default_cache_path
     directory = cache_path.joinpath(_VERSION_TAG)
     if not directory.exists():
-        os.makedirs(directory)
+        # Another process might create it at the same time.
+        os.makedirs(directory, exist_ok=True)
     return directory
